@@ -1022,6 +1022,9 @@ def exec_class(body):
     return "both"
 
 
+_AUDIT_EXTRA = []
+
+
 def audited_variants(body):
     """(variant -> bool: arm sets the audit flag, audit call guarded by the flag) from t_exec_mut's MIR."""
     # the audit flag: the boolean local that guards the audit_query call (whatever it is called)
@@ -1076,6 +1079,19 @@ def audited_variants(body):
     edges = [swt["true_edge"] for swt in cfg.bool_switches(body, flow(body, [f]))]
     aq = [i for i, t in cfg.calls(body) if cfg.callee(t) == UDB + "audit_query"]
     guarded = consts and bool(aq and edges) and all(cut(body, a, edges) is None for a in aq)
+    # ... and by nothing else: every mutating query of an applied batch is audited, whatever it reported as its result
+    flag_sw = {sw_["true_edge"][0] for sw_ in cfg.bool_switches(body, flow(body, [f]))}
+    qt_sw = {i0 for i0, t0, names in sws}
+    extra = []
+    for j, blk in enumerate(body.blocks):
+        tt = blk["term"]
+        if blk.get("cleanup") or tt["k"] != "switch" or j in flag_sw or j in qt_sw or tt.get("x") == "desugar:QuestionMark":
+            continue
+        if any(cut(body, a, [(j, tg)]) is None for a in aq for tg in cfg.succs(body, j)):
+            extra.append(body.loc(j))
+    if extra:
+        guarded = False
+        _AUDIT_EXTRA[:] = extra
     return out, guarded
 
 
@@ -1150,6 +1166,8 @@ def r24d(ctx, rule="R24d"):
            "unrecognised arm patterns %s" % stray, "")
     ctx.ob(rule, "t_exec_mut:audit-guarded", guarded,
            "audit_query is called only when the arm set do_audit (a flag that only receives constants)" if guarded else
+           ("audit_query in t_exec_mut also depends on a test at %s: a mutating query of an applied batch can be missing from "
+            "the audit log" % _AUDIT_EXTRA) if _AUDIT_EXTRA else
            "audit_query in t_exec_mut is not guarded by the do_audit flag any more", bm.where)
     # required_role inspects every query of the batch: `Read` is returned only when the iterator is exhausted
     if b and pred_form:
